@@ -4,7 +4,10 @@ All rules work on *path terms*: `_paths(fn)` walks the paths of a (small) functi
 substituted by its defining expression over the parameters (flow-sensitive, so rebinding, temporaries, renamed locals,
 extracted-and-inlined helpers, flags, early returns vs if/else and De-Morgan variants of tests are invisible), tests are
 split at `and`/`or`/`not`, a loop body is walked once over havoc'd loop-carried symbols (list-building loops are
-summarised as a fold).  Nothing is ever run on data: branch outcomes stay symbolic, only constant sub-expressions are
+summarised as a fold; a `while` loop is left by its test either before the first iteration or at the end of a last
+iteration that started from an arbitrary loop head, so a value carried out of it is the term the last iteration assigned
+together with that iteration's conditions; a summing for-loop `acc = 0; for v in IT: [if C:] acc += T` is read as
+`sum(T for v in IT [if C])`).  Nothing is ever run on data: branch outcomes stay symbolic, only constant sub-expressions are
 folded.  A rule then locates its subject *by role* in the terms ("the length argument of the to_bytes that is returned",
 "the classifier call a returned URI passed") and decides the side conditions algebraically: polynomial normal form
 (`_P`, on top of `csverif.absint.sympoly`) with `//`, `%`, ceiling division and bit operations as opaque atoms, a small
@@ -42,6 +45,11 @@ R5 staged beacon gate: 2+3 only (path conditions carrying a positive classifier 
 R6 NetBIOS: 2+3 (sequence builder located by role: comprehension or one list-filling loop, analysed once), 3+4
    (structural matching of the nibble terms, polynomial normal form of the symbol / decoded-byte terms, affine index
    terms of the decoder under the loop's start/step), 6 (default offsets).  Lemmas: L17-L23.
+R7 pack is total on the representable range: 2+3 (the paths of pack that end in `raise` / a failing assert, their
+   conditions over the parameters), 5 (cases `signed` / `not signed`, `size is None` / given, the two byte orders
+   int.to_bytes knows), 4 (the region of the value parameter a raising path admits as a union of intervals with symbolic
+   bounds a*$W + b, $W = 2**(8*size), in polynomial normal form; emptiness of its intersection with the representable
+   range [-$W/2, $W/2 - 1] / [0, $W - 1] by the sign of bound differences over the interval $W >= 256).  Lemma: L25.
 
 Lemmas (each is an identity / inequality over the integers; the one-line reason is given):
  L1  len(s * q) == len(s) * q for q >= 0; len(s[:h]) == min(len(s), h) for h >= 0; len(s + t) == len(s) + len(t).
@@ -75,6 +83,10 @@ Lemmas (each is an identity / inequality over the integers; the one-line reason 
  L22 len(range(0, L, 2)) == L // 2 for even L;  the j-th element of range(a, b, s) is a + s * j.
  L23 x & m == x for every int x only if m == -1; x | m == x, x ^ m == x only if m == 0; x % m != x for x >= m.
  L24 i % n == i for 0 <= i < n.   (L2 with quotient 0)
+ L25 for a width size >= 1, $W = 2**(8*size) = 256**size = 1 << (8*size) is a multiple of 256 and >= 256, so
+     2**(8*size + b) == 2**b * $W for b >= -8 and (c*$W) >> k == (c*$W) // 2**k == (c / 2**k) * $W whenever 2**k divides
+     256*c; for a >= 0 the term a*$W + b is non-decreasing in $W, hence >= 256*a + b at every width (dually for a <= 0).
+     The integers representable in `size` bytes are [-$W/2, $W/2 - 1] signed and [0, $W - 1] unsigned.   (two's complement)
 """
 
 from __future__ import annotations
@@ -692,6 +704,7 @@ class _Loop:
         self.iter = None  # substituted iterable (for loops)
         self.iters = []  # states at the end of one complete iteration
         self.exits = 0  # break / return / raise paths out of the body
+        self.nconds = 0  # number of path conditions at the loop head (the later ones of an iteration belong to the body)
 
 
 class _Exec:
@@ -981,12 +994,14 @@ class _Exec:
             alts = self.split(self.sub(s.test, head))
         else:
             alts = [([], True), ([], False)]
+        lp.nconds = len(head.conds)
         for c, o in alts:
             s2 = head.fork()
             if not s2.add(c):
                 continue
             if not o:
-                after.extend(self.block(s.orelse, [s2]))
+                if not isinstance(s, ast.While):
+                    after.extend(self.block(s.orelse, [s2]))
                 continue
             for b in self.block(s.body, [s2]):
                 if b.end is None or b.end[0] == "continue":
@@ -999,7 +1014,35 @@ class _Exec:
                 else:
                     lp.exits += 1
                     out.append(b)
+        if isinstance(s, ast.While):
+            # leaving by the loop test: either no iteration ran (the test is false on the values before the loop) or the
+            # test is false on the values at the end of a last iteration, which started from an arbitrary loop head (its
+            # symbols are renamed: they denote the head of that last iteration, not the exit)
+            ends = [st.fork()] + [self.previous(b, lp) for b in lp.iters]
+            for e in ends:
+                for c, o in self.split(self.sub(s.test, e)):
+                    if o:
+                        continue
+                    s2 = e.fork()
+                    if s2.add(c):
+                        after.extend(self.block(s.orelse, [s2]))
         return out + after
+
+    @staticmethod
+    def previous(b, lp):
+        """A copy of the iteration-end state `b` of loop `lp` in which the loop-head symbols are renamed `<name>@<k>p`."""
+        ren = {v: v + "p" for v in lp.head.values()}
+
+        def r(e):
+            if e is None or not any(isinstance(n, ast.Name) and n.id in ren for n in ast.walk(e)):
+                return e
+            e = copy.deepcopy(e)
+            for n in ast.walk(e):
+                if isinstance(n, ast.Name) and n.id in ren:
+                    n.id = ren[n.id]
+            return e
+
+        return _St({k: r(v) for k, v in b.env.items()}, [(r(a), pol) for a, pol in b.conds], [(x, r(v)) for x, v in b.events], list(b.visited))
 
     def try_(self, s, st):
         names = _assigned(s.body)
@@ -1186,22 +1229,25 @@ def run(ctx):
         "own classifier applied to that very value, for admitted lengths within [3, inf) (x64: {4}), built as '/' + `length` draws from "
         "an alphabet inside [0-9A-Za-z]; the staged beacon extraction is reachable with a known request only on paths with a positive "
         "stager test of the request URI; the NetBIOS encoder emits (high nibble + offset, low nibble + offset) per byte (structural "
-        "nibble forms) and the decoder term over the pair positions (2j, 2j+1) is 16*(x - offset) + (y - offset) in normal form."
+        "nibble forms) and the decoder term over the pair positions (2j, 2j+1) is 16*(x - offset) + (y - offset) in normal form; "
+        "every path of pack() that raises by itself admits only values outside the range representable at the width (region of "
+        "the value as intervals with bounds a*2**(8*size) + b per case of signed / size None, disjoint from [-W/2, W/2 - 1] resp. "
+        "[0, W - 1] at every width)."
     )
     rep.not_decided = [
         "self-inverse / inverse laws as such (only the structural conditions that imply them, via the lemmas in the module docstring)",
-        "odd-length NetBIOS input", "width limits of pack()", "`$` matching before one trailing newline in the x64 pattern",
+        "odd-length NetBIOS input", "exceptions raised inside int.to_bytes / int.from_bytes themselves and range checks of pack() spelled with bit_length() or other forms than comparisons with a*2**(8*size) + b (undecided)", "minimal-width signed packing (size None, signed=True)", "`$` matching before one trailing newline in the x64 pattern",
         "spellings outside the recognised algebraic forms (reported as undecided)",
     ]
     rep.trusted_base = [
         "CPython ast", "int.from_bytes / to_bytes semantics", "CPython re._parser (parse tree of the x64 URI pattern; nothing is matched)",
         "constant folder for constant expressions (string module constants, re flags)", "csverif.absint (SymPoly normal form, Itv)",
-        "lemmas L1-L24 of the rules/c20.py docstring (length algebra, floor/ceiling division, known-bits facts for a byte, regex anchor/class semantics)",
+        "lemmas L1-L25 of the rules/c20.py docstring (length algebra, floor/ceiling division, known-bits facts for a byte, regex anchor/class semantics, powers of 256 and the two's complement range)",
     ]
     from csverif import AnalysisError
 
     for rule, fn, anchor in (("R1", r1, "utils.py::xor"), ("R2", r2, "utils.py::pack/unpack"), ("R3", r3, "utils.py::checksum8"), ("R4", r4, "utils.py::random_stager_uri"),
-                             ("R5", r5, "pcap.py::BeaconCapture.find_staged_beacon"), ("R6", r6, "utils.py::netbios")):
+                             ("R5", r5, "pcap.py::BeaconCapture.find_staged_beacon"), ("R6", r6, "utils.py::netbios"), ("R7", r7, "utils.py::pack")):
         try:
             fn(ctx)
         except AnalysisError:
@@ -1759,6 +1805,227 @@ def r2(ctx):
             ctx.ob("R2", "AGREE", p, "pack", bool(verdict and dflt_ok), "pack passes byteorder/signed through to int.to_bytes and sizes minimally only when size is None" if verdict and dflt_ok else f"pack: {why or 'defaults ' + str(d)}")
 
 
+# ===================================================================================================== R7 pack is total on the representable range
+_W = "$W"  # the atom 2**(8*size): the number of values of `size` bytes; a multiple of 256 for every width size >= 1 (L25)
+
+
+def _affine_in(E, name):
+    """`E` as a*name + b with integer a, b -> (a, b); None when it is not such a term."""
+    pe = _P(E)
+    if pe is None or not set(pe.terms) <= {(), (name,)}:
+        return None
+    a, b = pe.terms.get((name,), Fraction(0)), pe.terms.get((), Fraction(0))
+    return (int(a), int(b)) if a.denominator == 1 and b.denominator == 1 else None
+
+
+def _pw(e, n, size):
+    """Normal form of an integer term over the value parameter `n` and the atom $W = 2**(8*size): powers of two whose
+    exponent is 8*size + b (`c << (8*size + b)`, `2 ** (8*size + b)`, `256 ** size`, ..) become (c * 2**b) * $W, an exact
+    halving `t >> k` / `t // 2**k` of a pure multiple of $W divides its coefficient (L25).  None: outside these forms."""
+    if isinstance(e, ast.Constant):
+        return SymPoly.const(e.value) if type(e.value) is int else None
+    if isinstance(e, ast.Name):
+        return SymPoly.atom(n) if e.id == n else None
+    if isinstance(e, ast.Call) and dotted(e.func) == "int" and len(e.args) == 1 and not e.keywords:
+        return _pw(e.args[0], n, size)
+    if isinstance(e, ast.UnaryOp) and isinstance(e.op, (ast.USub, ast.UAdd)):
+        v = _pw(e.operand, n, size)
+        return None if v is None else (-v if isinstance(e.op, ast.USub) else v)
+    if not isinstance(e, ast.BinOp):
+        return None
+    if isinstance(e.op, (ast.LShift, ast.Pow)):
+        base = _c(e.left)
+        ab = _affine_in(e.right, size)
+        if type(base) is not int or ab is None:
+            return None
+        a, b = ab
+        if isinstance(e.op, ast.LShift):
+            m, c = 1, base  # c * 2**(a*size + b)
+        else:
+            m = base.bit_length() - 1
+            if base < 2 or base != 1 << m:
+                return None
+            c = 1  # 2**(m*a*size + m*b)
+        if m * a == 0:
+            return SymPoly.const(c * Fraction(2) ** (m * b)) if m * b >= 0 else None
+        if m * a != 8 or m * b < -8 or abs(m * b) > 64:
+            return None
+        return SymPoly.atom(_W) * SymPoly.const(c * Fraction(2) ** (m * b))
+    l = _pw(e.left, n, size)
+    if l is None:
+        return None
+    if isinstance(e.op, (ast.RShift, ast.FloorDiv)):
+        k = _c(e.right)
+        if type(k) is not int:
+            return None
+        d = (1 << k) if isinstance(e.op, ast.RShift) and 0 <= k <= 64 else k if isinstance(e.op, ast.FloorDiv) and k >= 1 else None
+        if d is None or set(l.terms) != {(_W,)} or (l.terms[(_W,)] * 256 / d).denominator != 1:
+            return None  # only the exact division of a multiple of $W is a polynomial (256 divides $W)
+        return l.div_const(d)
+    r = _pw(e.right, n, size)
+    if r is None:
+        return None
+    if isinstance(e.op, ast.Add):
+        return l + r
+    if isinstance(e.op, ast.Sub):
+        return l - r
+    if isinstance(e.op, ast.Mult):
+        return l * r
+    return None
+
+
+def _w_sign(p):
+    """Sign of a*$W + b over all widths ($W in {256, 65536, ..}): ">=0" / "<0" when it is the same at every width
+    (L25: for a >= 0 the term is non-decreasing in $W, so its minimum is at $W = 256; dually for a <= 0), else None."""
+    if not set(p.terms) <= {(), (_W,)}:
+        return None
+    a, b = p.terms.get((_W,), Fraction(0)), p.terms.get((), Fraction(0))
+    lo = a * 256 + b
+    if lo.denominator != 1 or b.denominator != 1:
+        return None
+    if a >= 0 and lo >= 0:
+        return ">=0"
+    if a <= 0 and lo < 0:
+        return "<0"
+    return None
+
+
+def _n_bounds(a, pol, n, size):
+    """A path condition that compares the value parameter `n` with terms over $W, as alternatives (a disjunction) of
+    conjunctions of bounds ("lo" | "hi", polynomial): n >= p / n <= p.  None when the condition has another form."""
+    if not (isinstance(a, ast.Compare) and all(type(o) in _OPS6 for o in a.ops)):
+        return None
+    simple = []  # per link of the chain: alternatives of bound lists
+    items = [a.left] + list(a.comparators)
+    for l, op, r in zip(items, a.ops, items[1:]):
+        pl, pr = _pw(l, n, size), _pw(r, n, size)
+        if pl is None or pr is None:
+            return None
+        d = pl - pr
+        sn = d.terms.get((n,), Fraction(0))
+        if sn not in (1, -1) or not set(d.terms) <= {(), (n,), (_W,)}:
+            return None
+        q = SymPoly({k: v for k, v in d.terms.items() if k != (n,)})
+        op = type(op)
+        if not pol:
+            op = {ast.Lt: ast.GtE, ast.LtE: ast.Gt, ast.Gt: ast.LtE, ast.GtE: ast.Lt, ast.Eq: ast.NotEq, ast.NotEq: ast.Eq}[op]
+        if sn == 1:
+            B = -q  # n + q op 0  <=>  n op -q
+        else:
+            B, op = q, _FLIP[op]  # -n + q op 0  <=>  n flip(op) q
+        simple.append({
+            ast.Lt: [[("hi", B - _ONE)]], ast.LtE: [[("hi", B)]], ast.Gt: [[("lo", B + _ONE)]], ast.GtE: [[("lo", B)]],
+            ast.Eq: [[("lo", B), ("hi", B)]], ast.NotEq: [[("hi", B - _ONE)], [("lo", B + _ONE)]],
+        }[op])
+    if pol:  # conjunction of the links
+        out = [[]]
+        for alts in simple:
+            out = [x + y for x in out for y in alts]
+        return out
+    return [y for alts in simple for y in alts]  # negated chain: some link fails
+
+
+def _range_text(bounds, n="n"):
+    """The bounds as text, without the ones another bound of the same side implies at every width."""
+    lo = list(dict.fromkeys(p for k, p in bounds if k == "lo"))
+    hi = list(dict.fromkeys(p for k, p in bounds if k == "hi"))
+    lo = [x for x in lo if not any(y != x and _w_sign(y - x) == ">=0" for y in lo)]
+    hi = [x for x in hi if not any(y != x and _w_sign(x - y) == ">=0" for y in hi)]
+    return " and ".join([f"{n} >= {x!r}" for x in lo] + [f"{n} <= {x!r}" for x in hi])
+
+
+def r7(ctx):
+    """pack() must not reject an integer that is representable at the requested width: every path of pack that ends in
+    a `raise` (or a failing assert) is read as a region of the value parameter - a union of intervals whose bounds are
+    polynomials a*$W + b - per case of `signed` and of `size is None`; the region must not meet the representable range
+    [-$W/2, $W/2 - 1] (signed) / [0, $W - 1] (unsigned; size None: [0, inf))."""
+    p = ctx.repo.func("utils.pack")
+    pps = params(p.node)
+    TEXT = "raise paths vs representable range"
+    if len(pps) < 1 or not {"size", "byteorder", "signed"} <= set(pps[1:]):
+        ctx.undecided("R7", "DOM", p, TEXT, f"pack no longer has the parameters size, byteorder, signed: {pps}")
+        return
+    n = pps[0]
+    ex, states = _try_paths(ctx, "R7", "DOM", p, TEXT)
+    if states is None:
+        return
+    raises = [s for s in states if s.end[0] == "raise" and not _is_handler_path(s)]
+    bad, und = [], []
+    W = SymPoly.atom(_W)
+    half = W.div_const(2)
+    for s in raises:
+        signed_cases, none_cases = [True, False], [True, False]
+        regions = [[]]
+        skip = why = None
+        for a, pol in s.conds:
+            ns = _names(a) & set(pps)
+            if not ns:
+                why = why or f"condition `{src(a)[:60]}` does not test the arguments"
+            elif isinstance(a, ast.Name) and a.id == "signed":
+                signed_cases = [x for x in signed_cases if x == pol]
+            elif _none_test(a, "size") is not None:
+                none_cases = [x for x in none_cases if x == (_none_test(a, "size") == pol)]
+            elif ns == {"byteorder"}:
+                # case analysis over the two byte orders int.to_bytes knows: a path neither can take is not judged
+                feasible = []
+                for bo in ("little", "big"):
+                    try:
+                        feasible.append(bool(_fold(_abstract(a, {"byteorder": "$bo"}), {"$bo": bo})) == pol)
+                    except _Raises:
+                        feasible.append(False)
+                    except _NoEval:
+                        why = why or f"condition `{src(a)[:60]}` on the byte order is not a constant test"
+                        break
+                if why is None and not any(feasible):
+                    skip = True
+            elif ns == {"size"}:
+                t = _atom_set(a, "size", (-_INF, _INF))
+                if t is None:
+                    why = why or f"condition `{src(a)[:60]}` is not an interval test of the width"
+                elif not _iv_and(t if pol else _iv_not(t, (-_INF, _INF)), [(1, _INF)]):
+                    skip = True  # only widths below one byte
+            elif n in ns and ns <= {n, "size"}:
+                alts = _n_bounds(a, pol, n, "size")
+                if alts is None:
+                    why = why or f"condition `{('' if pol else 'not ') + src(a)[:80]}` is not a comparison of the value with terms a*2**(8*size) + b"
+                else:
+                    regions = [x + y for x in regions for y in alts]
+                    if len(regions) > 64:
+                        why = why or "too many alternatives"
+                        regions = regions[:64]
+            else:
+                why = why or f"condition `{src(a)[:60]}` mixes arguments in a way the rule does not model"
+        if skip or not signed_cases or not none_cases:
+            continue
+        if why:
+            und.append(f"{why} (path {_cond_text(s.conds)[:4]})")
+            continue
+        uses_w = any(_W in q.atoms() for reg in regions for _k2, q in reg)
+        for reg in regions:
+            for none in none_cases:
+                if none and uses_w:
+                    continue  # a term 2**(8*size) was evaluated: size is an integer on this path
+                for sg in signed_cases:
+                    if none and sg:
+                        continue  # minimal-width signed packing is partial in int.to_bytes itself: not judged
+                    rep = [("lo", SymPoly.const(0))] if none else [("lo", -half), ("hi", half - _ONE)] if sg else [("lo", SymPoly.const(0)), ("hi", W - _ONE)]
+                    allb = reg + rep
+                    signs = [_w_sign(u - l) for k1, l in allb if k1 == "lo" for k2, u in allb if k2 == "hi"]
+                    if any(x == "<0" for x in signs):
+                        continue  # the raising region lies outside the representable range
+                    case = f"signed={sg}, " + ("size None" if none else "size given, $W = 2**(8*size)")
+                    if all(x == ">=0" for x in signs):
+                        bad.append(f"{case}: the raising path {_cond_text(s.conds)[:4]} is taken by the representable value(s) {_range_text(allb, n)} at every width (L25)")
+                    else:
+                        und.append(f"{case}: whether the raising region {_range_text(reg, n) or 'all values'} meets the representable range depends on the width")
+    if bad:
+        ctx.ob("R7", "DOM", p, TEXT, False, "pack must not reject an integer representable at the width (int.to_bytes accepts it and unpack yields it): " + "; ".join(dict.fromkeys(bad))[:500], raises[0].end[2])
+    elif und:
+        ctx.undecided("R7", "DOM", p, TEXT, "; ".join(dict.fromkeys(und))[:400])
+    else:
+        ctx.ob("R7", "DOM", p, TEXT, True, f"{len(raises)} raising path(s) of pack's own" + (": every integer int.to_bytes accepts at the width is packed" if not raises else ", each confined to values outside [-$W/2, $W/2 - 1] (signed) / [0, $W - 1] (unsigned), $W = 2**(8*size)"))
+
+
 # ===================================================================================================== R3 checksum8 / classifiers
 def _calls_to(ctx, f, e, fq):
     """Call nodes inside term `e` whose callee resolves (from f's module) to the repository function `fq`."""
@@ -1829,6 +2096,68 @@ def _codepoint_sum(e, p):
     if _is_param(t, p):
         return filt
     return None
+
+
+def _sum_loops(ex, e):
+    """A copy of term `e` in which every loop-head symbol that is the accumulator of a summing for-loop
+    (`acc = c; for v in IT: [if C(v):] acc += T(v)`, analysed once: the value at the end of an iteration is the head value
+    plus a term of the loop variable, or the unchanged head value on the complementary branch of one test) is replaced
+    by the equivalent `sum(T(v) for v in IT [if C(v)])` (`+ c` for a start value c != 0)."""
+
+    def summed(name):
+        nm, _, k = name.partition("@")
+        lp = ex.loops.get(int(k)) if k.isdigit() else None
+        if lp is None or not isinstance(lp.stmt, ast.For) or lp.exits or lp.stmt.orelse or not isinstance(lp.stmt.target, ast.Name) or not lp.iters:
+            return None
+        pre = lp.pre.get(nm)
+        if not (isinstance(pre, ast.Constant) and type(pre.value) is int):
+            return None
+        var = lp.head.get(lp.stmt.target.id)
+        head = SymPoly.atom(name)
+        adds, skips = [], []
+        for b in lp.iters:
+            v = b.env.get(nm)
+            extra = [(a, pol) for a, pol in b.conds[lp.nconds:]]
+            if isinstance(v, ast.Name) and v.id == name:
+                skips.append(extra)
+                continue
+            pv = _P(v) if v is not None else None
+            if pv is None:
+                return None
+            term = pv - head
+            if name in term.atoms() or len(term.terms) != 1:
+                return None
+            adds.append((extra, v))
+        if len(adds) != 1:
+            return None
+        extra, v = adds[0]
+        # the summand: v is `head + T` / `T + head` (one atom with coefficient 1 was checked above)
+        if not (isinstance(v, ast.BinOp) and isinstance(v.op, ast.Add)):
+            return None
+        T = v.right if _is_param(v.left, name) else v.left if _is_param(v.right, name) else None
+        if T is None or _mentions(T, name):
+            return None
+        ifs = []
+        if not skips and not extra:
+            pass
+        elif len(skips) == 1 and len(extra) == 1 and len(skips[0]) == 1 and _k(skips[0][0][0]) == _k(extra[0][0]) and skips[0][0][1] != extra[0][1] and not _mentions(extra[0][0], name):
+            a, pol = extra[0]
+            ifs = [a if pol else ast.UnaryOp(op=ast.Not(), operand=a)]
+        else:
+            return None
+        gen = ast.GeneratorExp(elt=T, generators=[ast.comprehension(target=ast.Name(id=var, ctx=ast.Store()), iter=lp.iter, ifs=ifs, is_async=0)])
+        total = ast.Call(func=ast.Name(id="sum", ctx=ast.Load()), args=[gen], keywords=[])
+        return total if pre.value == 0 else ast.BinOp(left=total, op=ast.Add(), right=ast.Constant(value=pre.value))  # the start value
+
+    class R(ast.NodeTransformer):
+        def visit_Name(self, n):
+            if "@" in n.id and isinstance(n.ctx, ast.Load):
+                r = summed(n.id)
+                if r is not None:
+                    return copy.deepcopy(r)
+            return n
+
+    return R().visit(copy.deepcopy(e))
 
 
 # ---- the x64 URI pattern, judged on its parse tree (device 6; nothing is compiled for matching, no string is matched)
@@ -2057,7 +2386,7 @@ def r3(ctx):
             if not lens:
                 continue  # infeasible path
             covered = _iv_or(covered, lens)
-            v = s.end[1]
+            v = _sum_loops(ex, s.end[1])
             short, long_ = _iv_and(lens, [(0, 3)]), _iv_and(lens, [(4, _INF)])
             if isinstance(v, ast.Constant):
                 if v.value == 0 and not isinstance(v.value, bool):
@@ -2073,10 +2402,17 @@ def r3(ctx):
                 bad.append(f"a text of {short[0][0]} characters does not yield 0 but `{src(v)[:60]}`")
             if isinstance(v, ast.BinOp) and isinstance(v.op, (ast.Mod, ast.BitAnd)):
                 m = _c(v.right)
-                cs = _codepoint_sum(v.left, p)
+                total, shift = v.left, 0
+                if isinstance(total, ast.BinOp) and isinstance(total.op, ast.Add) and type(_c(total.right)) is int:
+                    total, shift = total.left, _c(total.right)  # a constant added to the sum (e.g. the start value of a summing loop)
+                elif isinstance(total, ast.BinOp) and isinstance(total.op, ast.Add) and type(_c(total.left)) is int:
+                    total, shift = total.right, _c(total.left)
+                cs = _codepoint_sum(total, p)
                 good_m = (m == 256) if isinstance(v.op, ast.Mod) else (m == 255)  # L11
                 if cs is None or not isinstance(m, int):
                     undec.append(f"checksum expression `{src(v)[:100]}` not recognised as a code point sum")
+                elif shift % 256:
+                    bad.append(f"a text of {lens[0][0]} characters yields `{src(v)[:100]}`: the code point sum is shifted by the constant {shift}")
                 elif not (cs and good_m):
                     bad.append(f"a text of {lens[0][0]} characters yields `{src(v)[:100]}`: sum of the code points without '/'={cs}, reduced modulo 256={good_m}")
             elif _codepoint_sum(v, p) is not None:
